@@ -48,9 +48,13 @@ def shapes():
     return [(e, [v if len(v) == 3 else (v[0], v[1], 'R' * v[1]) for v in vs]) for e, vs in out]
 
 
+# names of named fields: pairs that differ only by an underscore or by case (bindings derived from them must not collide)
+FNAMES = ['id', '_id', 'x', 'X', 'foo_bar', 'fooBar', 'f6', 'f7']
+
+
 def fields_s(kind, n, pat=None):
     pat = pat or 'R' * n
-    fs = [sx.field(RT if pat[i] == 'R' else sx.tid('T') if pat[i] == 'T' else sx.tid('u8'), name=('f%d' % i) if kind == 'named' else None) for i in range(n)]
+    fs = [sx.field(RT if pat[i] == 'R' else sx.tid('T') if pat[i] == 'T' else sx.tid('u8'), name=FNAMES[i] if kind == 'named' else None) for i in range(n)]
     return sx.named(fs) if kind == 'named' else (sx.unnamed(fs) if kind == 'tuple' else sx.UNIT)
 
 
@@ -59,7 +63,7 @@ def value_expr(is_enum, vi, kind, n, base, pat=None):
     path = ('E::V%d' % vi) if is_enum else 'X'
     vals = [('Rc_(%d)' if pat[i] in 'RT' else '%du8') % (base + i) for i in range(n)]
     if kind == 'named':
-        return '%s { %s }' % (path, ', '.join('f%d: %s' % (i, v) for i, v in enumerate(vals)))
+        return '%s { %s }' % (path, ', '.join('%s: %s' % (FNAMES[i], v) for i, v in enumerate(vals)))
     if kind == 'tuple':
         return '%s(%s)' % (path, ', '.join(vals))
     return path
@@ -194,7 +198,7 @@ def _dbg(is_enum, vi, kind, ids, pat=None):
     if kind == 'named':
         if not ids:
             return name
-        return '%s { %s }' % (name, ', '.join('f%d: %s' % (i, show(i, x)) for i, x in enumerate(ids)))
+        return '%s { %s }' % (name, ', '.join('%s: %s' % (FNAMES[i], show(i, x)) for i, x in enumerate(ids)))
     if kind == 'tuple':
         return '%s(%s)' % (name, ', '.join(show(i, x) for i, x in enumerate(ids))) if ids else name
     return name
